@@ -28,6 +28,7 @@ from harness.core import Broken, Ctx, Failure, LeanDriver, Prop, Result
 # scripts and histories
 # ---------------------------------------------------------------------------
 # script = {"init": "ok" | "fail_pre" | "fail_post", "body": [step, ...], "end": end}
+#   step: ["guard", wait, handler]  (try/finally or except around a wait, whose cleanup raises / re-raises / swallows)
 #   step: ["upd"] | ["sleep", d] | ["yield"] | ["until_stop", k] | ["wait_stop"] | ["peek"] | ["status", v]
 #   end : ["ret"] | ["raise", "ValueError" | "BaseBoom" | "KeyboardInterrupt"] | ["raise_stop"]
 # history = list of ops: "start" "stop" "join" "is_running" ["set", v] "get" "pend" "status" "enter" "exit"
@@ -53,6 +54,12 @@ BODY_EXC = {"BodyError": BodyError, "KeyError": KeyError, "KeyboardInterrupt": K
             "BaseBoom": BaseBoom}
 
 
+WAITS = ("wait_stop", "signal_wait", ["sleep", 0.5], ["sleep", 0.0], ["signal_timeout", 0.5], "raise_stop", "raise_other", "none")
+HANDLERS = ("finally_raise:ValueError", "finally_raise:BaseBoom", "finally_raise:KeyboardInterrupt", "finally_ok",
+            "except_raise:ValueError", "except_raise:BaseBoom", "except_from:ValueError", "except_from:KeyboardInterrupt",
+            "except_reraise", "except_swallow", "any_raise_stop", "any_swallow")
+
+
 def gen_script(rng) -> dict:
     r = rng.random()
     init = "ok" if r < 0.93 else ("fail_pre" if r < 0.965 else "fail_post")
@@ -67,9 +74,11 @@ def gen_script(rng) -> dict:
             body.append(["sleep", rng.choice([0.0, 0.5, 2.0])])
         elif k < 0.83:
             body.append(["until_stop", rng.randint(1, 3)])
-        elif k < 0.91:
+        elif k < 0.89:
             body.append(["wait_stop"])
-        elif k < 0.96:
+        elif k < 0.94:
+            body.append(["guard", rng.choice(WAITS), rng.choice(HANDLERS)])
+        elif k < 0.97:
             body.append(["status", rng.randint(1, 9)])
         else:
             body.append(["peek"])
@@ -433,6 +442,82 @@ def _classes():
             if rec.script["init"] == "fail_post":
                 raise InitBoom("scripted init failure (after QMI_Task.__init__)")
 
+        def _wait(self, rec, wait):
+            """one of the ways a task body waits (or fails): ends by the stop request, by time, or at once"""
+            w = wait[0] if isinstance(wait, (list, tuple)) else wait
+            if w in ("wait_stop", "signal_wait"):
+                rec.body_blocked = True
+                try:
+                    if w == "wait_stop":
+                        self.sleep(None)
+                    else:
+                        from qmi.core.pubsub import QMI_SignalReceiver
+                        QMI_SignalReceiver().get_next_signal(timeout=None)     # nobody publishes: only a stop ends it
+                finally:
+                    if not D.SCHED.aborting:      # on a reported deadlock the flag must survive the unwinding
+                        rec.body_blocked = False
+            elif w == "sleep":
+                self.sleep(wait[1])
+            elif w == "signal_timeout":
+                from qmi.core.pubsub import QMI_SignalReceiver
+                QMI_SignalReceiver().get_next_signal(timeout=wait[1])          # QMI_TimeoutException, or the stop
+            elif w == "raise_stop":
+                raise QMI_TaskStopException()
+            elif w == "raise_other":
+                raise ValueError("scripted failure inside the guarded block")
+            elif w != "none":
+                raise RuntimeError("bad wait %r" % (wait,))
+
+        def _guard(self, rec, wait, handler):
+            """try/finally and except-handlers around a wait whose cleanup code itself raises, re-raises, raises
+            `from` the stop exception, or swallows it"""
+            h, _, xn = handler.partition(":")
+            X = {"ValueError": ValueError, "BaseBoom": BaseBoom, "KeyboardInterrupt": KeyboardInterrupt, "": None}[xn]
+            if h == "finally_raise":
+                try:
+                    self._wait(rec, wait)
+                finally:
+                    if not D.SCHED.aborting:
+                        raise X("scripted failure of the cleanup")        # implicit __context__ = what was propagating
+            elif h == "finally_ok":
+                try:
+                    self._wait(rec, wait)
+                finally:
+                    rec.mark("cleanup")
+            elif h == "except_raise":
+                try:
+                    self._wait(rec, wait)
+                except QMI_TaskStopException:
+                    raise X("scripted failure while handling the stop")    # implicit __context__ = the stop exception
+            elif h == "except_from":
+                try:
+                    self._wait(rec, wait)
+                except QMI_TaskStopException as e:
+                    raise X("scripted failure caused by the stop") from e
+            elif h == "except_reraise":
+                try:
+                    self._wait(rec, wait)
+                except QMI_TaskStopException:
+                    rec.mark("cleanup")
+                    raise
+            elif h == "except_swallow":
+                try:
+                    self._wait(rec, wait)
+                except QMI_TaskStopException:
+                    rec.mark("cleanup")
+            elif h == "any_raise_stop":
+                try:
+                    self._wait(rec, wait)
+                except Exception as e:
+                    raise QMI_TaskStopException() from e                   # the other way round: stop wraps an error
+            elif h == "any_swallow":
+                try:
+                    self._wait(rec, wait)
+                except Exception:
+                    rec.mark("cleanup")
+            else:
+                raise RuntimeError("bad handler %r" % (handler,))
+
         def _upd(self, rec):
             rec.mark("upd_call")
             r = self.update_settings()
@@ -458,12 +543,9 @@ def _classes():
                             self._upd(rec)
                             self.sleep(1.0)
                     elif k == "wait_stop":
-                        rec.body_blocked = True
-                        try:
-                            self.sleep(None)
-                        finally:
-                            if not D.SCHED.aborting:      # on a reported deadlock the flag must survive the unwinding
-                                rec.body_blocked = False
+                        self._wait(rec, "wait_stop")
+                    elif k == "guard":
+                        self._guard(rec, step[1], step[2])
                     elif k == "peek":
                         rec.mark("peek", self.stop_requested())
                     elif k == "status":
@@ -1697,6 +1779,18 @@ class C10(Prop):
             fixed.append(({"init": "ok", "body": [["wait_stop"]], "end": end},
                           ["start", "with_enter", "is_running", ["with_exit", "KeyError"], "stop", "join"]))
 
+        # cleanup code that runs while the wait is being left: waits × handlers; the outcome of run() is the exception that
+        # actually leaves it, whatever hangs on its __cause__ / __context__ chain
+        k = 0
+        for wt in WAITS:
+            blocking = wt in ("wait_stop", "signal_wait")
+            for hd in HANDLERS:
+                for end in (["ret"], ["raise", "ValueError"]) if hd in ("except_swallow", "any_swallow", "finally_ok") else (["ret"],):
+                    hist = [["start", "is_running", "stop", "join", "is_running"], ["with_enter", ["with_exit", None]],
+                            ["start", "join"]][k % (2 if blocking else 3)]
+                    k += 1
+                    fixed.append(({"init": "ok", "body": [["guard", wt, hd]], "end": end}, hist))
+
         def loop(period, policy, hooks=None, status=(), cost=(), bound=3):
             return {"kind": "loop", "init": "ok", "body": [], "end": ["loop"], "period": period, "policy": policy,
                     "hooks": hooks or {}, "status": list(status), "cost": list(cost), "bound": bound}
@@ -1716,8 +1810,9 @@ class C10(Prop):
                               ["start", ["set", 1], "is_running", "join"]))
             fixed.append((loop(0.5, pol, cost=[0.5, 0.5], bound=4), ["enter", ["set", 1], "stop", "exit"]))
             fixed.append((loop(2.0, pol, bound=50), ["start", ["set", 1], ["set", 2], "stop", "join"]))
-        for script, hist in fixed:
-            for s in range(ctx.scale(3, 12)):
+        for n_fixed, (script, hist) in enumerate(fixed):
+            # the hand-picked histories under several schedules, the systematic grids under one (quick) / four (thorough)
+            for s in range(ctx.scale(3, 12) if n_fixed < 20 else ctx.scale(1, 4)):
                 c = {"script": script, "history": hist, "seed": ctx.rng.randrange(1 << 30),
                      "policy": "weighted" if s % 2 == 0 else "pct", "cp": None, "trace": s % 3 == 0}
                 if (len(cases) % 5) == 4:
